@@ -254,6 +254,7 @@ class Result:
         d["time"] += ob.time
         if ob.status == "sat":
             d["status"] = "sat"
+            d["imprecise"] = d.get("imprecise", True) and getattr(ob, "imprecise", False)
             if len(d["models"]) < 5:
                 d["models"].append(ob.model)
             d["detail"] = d["detail"] or ob.detail
@@ -282,6 +283,7 @@ def verify(contract: Contract, src: SourceIndex = None, contracts=None, timeout_
     ctx.contracts[(modname, qual)] = contract
     if extra_ctx:
         extra_ctx(ctx)
+    ctx.loop_specs = dict(getattr(contract, "loops", {}) or {})
     hook = getattr(contract, "configure", None)
     if hook:
         hook(ctx)
